@@ -972,6 +972,9 @@ func (e *env) scenCount(u *vf.Unit) result {
 			if err == nil {
 				if withData {
 					_, err = s.Write([]byte{byte(i)})
+					if err == nil && i == 0 && e.sc.Lag {
+						err = s.Close() // the first stream is complete at once: the lagging application finishes it early
+					}
 				} else {
 					err = s.Close()
 				}
@@ -1008,10 +1011,49 @@ func (e *env) scenCount(u *vf.Unit) result {
 		return one(v)
 	}
 	readers := make([]deadlineReader, 0, n)
-	for i := 0; i < int(n); i++ {
+	lagged := false
+	if e.sc.Lag && n >= 2 {
+		// a lagging accept loop: the application takes the first stream only and reads it to its end (the stream
+		// completes while the peer's other streams are open but not yet accepted) ...
 		rd, err := e.clientAccept(wtyp)
 		if err != nil {
 			close(closeAll)
+			if v := e.alive(what); v != nil {
+				return one(v)
+			}
+			return one(e.bad(sigIncomplete, "%s: the client application was offered none of the %d streams the peer opened: %v", what, n, err))
+		}
+		var want []byte
+		if withData {
+			want = []byte{0}
+		}
+		rd.SetReadDeadline(time.Now().Add(stallTimeout))
+		if b, err := io.ReadAll(rd); err != nil || string(b) != string(want) {
+			close(closeAll)
+			if v := e.alive(what); v != nil {
+				return one(v)
+			}
+			return one(e.bad(sigIncomplete, "%s: stream #0 delivered %x (error %v), the peer wrote %x and closed", what, b, err, want))
+		}
+		// ... and the peer goes on using the streams it has opened (their FINs arrive before they are accepted)
+		close(closeAll)
+		lagged = true
+		time.Sleep(e.rtt + 100*time.Millisecond)
+		if v := e.alive(fmt.Sprintf("%s: after the peer closed its %d streams while the application had accepted only the first", what, n)); v != nil {
+			return one(v)
+		}
+		u.Class("count:lagging-accept")
+	}
+	for i := len(readers); i < int(n); i++ {
+		if lagged && i == 0 {
+			readers = append(readers, nil)
+			continue
+		}
+		rd, err := e.clientAccept(wtyp)
+		if err != nil {
+			if !lagged {
+				close(closeAll)
+			}
 			if v := e.alive(what); v != nil {
 				return one(v)
 			}
@@ -1019,8 +1061,13 @@ func (e *env) scenCount(u *vf.Unit) result {
 		}
 		readers = append(readers, rd)
 	}
-	close(closeAll)
+	if !lagged {
+		close(closeAll)
+	}
 	for i, rd := range readers {
+		if rd == nil {
+			continue // read already
+		}
 		var want []byte
 		if withData {
 			want = []byte{byte(i)}
